@@ -7,9 +7,9 @@
    any fork": stated here without store-level hypotheses, for the whole kept window LIB - kept.)
 
    Where.  After EVERY input block that ProcessBlock accepted (returned nil), for every history of the class
-   `moving_scope_b r0 h` of Spec/C01_Moving_Spec.v (well-formed, LIB declarations in the class lib_ok_b, no empty
-   parent id, configured LIB coherent with the history: any tree, any arrival order, duplicates, unlinkable
-   blocks, blocks under the LIB, LIB jumps of any size, reorganisation and LIB move in one step), both
+   `moving_scope2_b r0 h` of Spec/C01_Roots_Spec.v (well-formed, LIB declarations in the class lib_ok_b, configured
+   LIB coherent with the history: any tree, any arrival order, duplicates, unlinkable blocks, roots = blocks with an
+   empty parent id, blocks under the LIB, LIB jumps of any size, reorganisation and LIB move in one step), both
    modes with a configured LIB (exclusive / inclusive), EVERY configuration with the New and Undo steps in the
    filter: any retention `c_kept` (0 included), any first streamable block, includeInitialLIB on or off,
    all-blocks-trigger on or off, Irreversible / Stalled filtered or not, and ANY handler oracle (the statements
@@ -19,7 +19,7 @@
    delivered so far: newest block first, its bottom is the first block ever delivered as New.  Final
    blocks stay on S: S is the WHOLE chain of the consumer, from its first block to the head. *)
 From BV Require Import Base.Prelude Model.Block Model.ForkDB Model.Forkable Model.ForkableLookups Model.Burst
-  Spec.Consumer Spec.Universe Spec.C01_Spec Spec.C01_Moving_Spec Spec.C18_Spec
+  Spec.Consumer Spec.Universe Spec.C01_Spec Spec.C01_Moving_Spec Spec.C01_Roots_Spec Spec.C18_Spec
   Check.Fk_Check Check.Fk_Props_Check.
 Local Open Scope N_scope.
 
@@ -32,7 +32,7 @@ Inductive reaches (cfg : config) : fstate -> list block -> list event -> fstate 
     fk_step cfg s b = (s1, evs, ROk) -> reaches cfg s1 pre evs' s' -> reaches cfg s (b :: pre) (evs ++ evs') s'.
 
 Definition c18_scope (cfg : config) (r0 : ref) (m : libmode) (h : list block) : Prop :=
-  rooted_mode r0 m /\ f_new (c_filter cfg) = true /\ f_undo (c_filter cfg) = true /\ moving_scope_b r0 h = true.
+  rooted_mode r0 m /\ f_new (c_filter cfg) = true /\ f_undo (c_filter cfg) = true /\ moving_scope2_b r0 h = true.
 
 (* P holds at every observation point of the history h: a prefix `pre` of h was fed, every call returned ROk,
    `s` is the state of the Forkable and S the consumer's stack (it exists: the events obey the discipline) *)
@@ -189,12 +189,12 @@ Definition C18_states_reached : Prop :=
 (* ---------------------------------------------------------------- 5. the monitor of the check accepts *)
 
 (* the cases that meet every hypothesis: a configured LIB (exclusive or inclusive), New / Undo / Irreversible in the
-   filter, a history of the class moving_scope_b, and recorded queries that cover the ids and the heights of the
+   filter, a history of the class moving_scope2_b (roots allowed), and recorded queries that cover the ids and the heights of the
    history (the monitor can only judge what was asked) *)
 Definition c18_moving_thm_scope (k : fk_case) : bool :=
   match k_mode k with
   | LExcl r0 | LIncl r0 =>
-      filt_nu k && filt_irr k && moving_scope_b r0 (k_hist k) &&
+      filt_nu k && filt_irr k && moving_scope2_b r0 (k_hist k) &&
       forallb (fun b => memN (bid b) (k_qi k) && memN (bnum b) (k_qh k)) (k_hist k)
   | LNone => false
   end.
